@@ -8,7 +8,7 @@ CONSTANTS
   AB_GetAxisOffByOne = FALSE
   NthArgs = {0, 1, 2, 9}
   NthBudget = 2
-  NthMaxCells = 12
+  NthMaxCells = 6
   AB_NthUnclamped = FALSE
   AB_View0Dim = FALSE
   ShapeSet <- MCCatalogue
